@@ -27,6 +27,12 @@ pub struct Cfg {
     pub count: u32,
     #[serde(default)]
     pub interleave: u8,
+    /// content encoding of the FDT itself
+    #[serde(default)]
+    pub fdt_cenc: u8,
+    /// FTI and CENC signalled differently (CENC in-band iff the FTI is NOT in-band), and no Content-MD5
+    #[serde(default)]
+    pub split_sig: bool,
 }
 
 #[derive(Serialize, Deserialize, Clone, Debug)]
@@ -57,7 +63,10 @@ pub fn prepare(c: &Cfg) -> Result<Prepared, String> {
         o.oti = Some(OtiSpec::new(c.scheme, e, b, parity, c.inband));
         o.cenc = if l > 0 { c.cenc } else { 0 };
         o.text = o.cenc != 0;
-        o.inband_cenc = c.inband;
+        o.inband_cenc = c.inband != c.split_sig;
+        // without a Content-MD5 nothing but correct signalling protects the bytes (with it, a wrongly decoded
+        // copy ends in error and a later cycle repairs the delivery)
+        o.md5 = !c.split_sig;
         o.carousel = Some(if c.interval { Carousel::Interval(1000) } else { Carousel::Delay(500) });
         o.count = c.count.max(1);
         objs.push(o);
@@ -65,6 +74,7 @@ pub fn prepare(c: &Cfg) -> Result<Prepared, String> {
     let mut s = SessSpec::basic(OtiSpec::new(Scheme::NoCode, c.fdt_e, 64, 0, true));
     s.full_fdt = c.full_fdt;
     s.interleave = c.interleave.max(1);
+    s.fdt_cenc = c.fdt_cenc;
     s.queues = vec![(0, 2)];
     let spec = RecSpec { sess: s, objs: objs.clone(), polls_ms: POLLS.to_vec() };
     let rec = record(&spec)?;
@@ -158,7 +168,13 @@ pub fn configs(thorough: bool) -> Vec<Cfg> {
                                         if with_empty && nobj == 1 && cenc != 0 {
                                             continue;
                                         }
-                                        v.push(Cfg { scheme, nobj, inband, cenc, interval, full_fdt, fdt_e, with_empty, count, interleave });
+                                        v.push(Cfg { scheme, nobj, inband, cenc, interval, full_fdt, fdt_e, with_empty, count, interleave, fdt_cenc: 0, split_sig: false });
+                                        if cenc != 0 && count == 1 && interleave == 1 {
+                                            v.push(Cfg { scheme, nobj, inband, cenc, interval, full_fdt, fdt_e, with_empty, count, interleave, fdt_cenc: 0, split_sig: true });
+                                        }
+                                        if count == 1 && interleave == 1 && (thorough || fdt_e == 512) {
+                                            v.push(Cfg { scheme, nobj, inband, cenc, interval, full_fdt, fdt_e, with_empty, count, interleave, fdt_cenc: 1 + (nobj as u8 % 3), split_sig: false });
+                                        }
                                     }
                                 }
                             }
